@@ -402,7 +402,7 @@ func shellExits() {
 }
 
 func shellSizes() {
-	for _, n := range []int{0, 1, 2, 4095, 4096, 4097, 65535, 65536, 65537, 262144, 1 << 20} {
+	for _, n := range []int{0, 1, 2, 4095, 4096, 4097, 65535, 65536, 65537, 262144, 1 << 20, 1<<20 + 1, 3<<20 + 17, 4 << 20} {
 		for _, stream := range []string{"stdout", "stderr", "both"} {
 			gen := fmt.Sprintf("head -c %d /dev/zero | tr '\\0' x", n)
 			var cmd, wo, we string
